@@ -1597,7 +1597,7 @@ namespace avel {
     [[nodiscard]]
     AVEL_FINL vec8x16u load<vec8x16u, vec8x16u::width>(const std::uint16_t* ptr) {
         #if defined(AVEL_SSE2)
-        return vec8x16u{_mm_load_si128(reinterpret_cast<const __m128i*>(ptr))};
+        return vec8x16u{_mm_loadu_si128(reinterpret_cast<const __m128i*>(ptr))};
         #endif
 
         #if defined(AVEL_NEON)
@@ -1717,7 +1717,7 @@ namespace avel {
     template<>
     AVEL_FINL void store<vec8x16u::width>(std::uint16_t* ptr, vec8x16u v) {
         #if defined(AVEL_SSE2)
-        _mm_store_si128(reinterpret_cast<__m128i*>(ptr), decay(v));
+        _mm_storeu_si128(reinterpret_cast<__m128i*>(ptr), decay(v));
         #endif
 
         #if defined(AVEL_NEON)
